@@ -189,10 +189,16 @@ impl Actor {
             // the payment channel state
             // 1. (optional) sum already redeemed value of all merging lanes
             let mut redeemed_from_others = TokenAmount::zero();
+            let mut merged_lanes = std::collections::BTreeSet::new();
             for merge in sv.merges {
                 if merge.lane == sv.lane {
                     return Err(actor_error!(illegal_argument;
                         "voucher cannot merge lanes into it's own lane"));
+                }
+                // A lane's redeemed amount must be deducted once, however often it is listed.
+                if !merged_lanes.insert(merge.lane) {
+                    return Err(actor_error!(illegal_argument;
+                        "voucher merges lane {} more than once", merge.lane));
                 }
                 let mut other_ls = find_lane(&l_states, merge.lane)?
                     .ok_or_else(|| {
